@@ -18,17 +18,19 @@ RULE = ("worlds as C07 but estimator and uninterrupted charging off, unequal vol
         "inconclusive; non-trivial = call with >=2 constraints binding and >=3 active sessions; distinct = history signature")
 PROBES = ["greedy_call_checked", "rr_call_checked", "uncontrolled_call_checked", "tie_inconclusive", "guard_inconclusive",
           "bisection_used", "ub_granted", "finite_level_lowered", "two_constraints_binding", "eps_probe", "order_matters",
-          "rr_blocked_session", "call_after_reconfig"]
+          "rr_blocked_session", "call_after_reconfig", "uninterrupted_call", "min_pilot_refused"]
 FAULT_DIMENSION = ("environment fault only: the operator changes a constraint limit between two periods of the run "
                    "(ChargingNetwork.update_constraint); otherwise reached-state distribution")
 ASSUMPTIONS = ["priority keys pairwise distinct (else the call is inconclusive)",
+               "uninterrupted charging: minimum pilots are pre-granted in order of remaining time as documented; a call where a "
+               "minimum is refused while two sessions tie in remaining time is inconclusive",
                "feasibility decided with the algorithms' hard-wired tolerances 1e-5 / 1e-7; guard band 1e-9*max(1,limit)",
                "bisection tolerance of the greedy algorithm is its hard-wired 0.01 A; other tolerances via max_feasible_rate(eps=...) probes"]
 PROFILE = world.profile(reconfig=0.3, constraints={"three": 6, "single": 1}, binding=(0.15, 0.8), evse_kinds={"cont": 3, "finite": 3},
-                        party={"greedy": 4, "rr": 2, "uncontrolled": 1}, estimator={"none": 1}, uninterrupted=0.0,
+                        party={"greedy": 4, "rr": 2, "uncontrolled": 1}, estimator={"none": 1}, uninterrupted=0.35,
                         hot=0.1, b2b=0.2, stations=(3, 8), demand=(0.05, 1.6), heterovolt=0.9, rr_inc=[0.5, 1, 3],
                         horizon=(4, 20), noise=0.1, chain_fill=(0.5, 1.0))
-EPS = [1e-4, 1e-3, 0.01, 0.1, 1]
+EPS = [1e-7, 1e-6, 1e-4, 1e-3, 0.01, 0.1, 1]
 
 
 def gen(rs, tier):
@@ -38,14 +40,47 @@ def gen(rs, tier):
     return sc
 
 
-def greedy_expect(out, sc, t, order, vec, cons, phases, tag):
+def min_alloc(out, keep, cons, phases, N, t):
+    """Uninterrupted charging (documented preprocessing): every session is pre-granted its EVSE's minimum pilot, in order
+    of remaining time (less time first), if that is feasible; a refused session gets nothing in this period.
+    Returns {station index: (lower bound, refused?)} or None when the outcome hinges on a tie / a guard-band decision."""
+    rem_time = lambda x: max(0, min(x["departure"] - x["arrival"], x["departure"] - t))
+    order = sorted(keep, key=rem_time)
+    ties = len({rem_time(x) for x in keep}) < len(keep)
+    rates = [0.0] * N
+    lbs = {}
+    refused = False
+    for x in order:
+        i = x["i"]
+        rates[i] = x["min_pilot"]
+        ok, concl = alloc.feasible(cons, phases, rates)
+        if not concl:
+            return None
+        if ok:
+            lbs[i] = (x["min_pilot"], False)
+        else:
+            rates[i] = 0.0
+            lbs[i] = (0.0, True)
+            refused = True
+    if refused:
+        out.probe("min_pilot_refused")
+        if ties:
+            return None
+    return lbs
+
+
+def greedy_expect(out, sc, t, order, vec, cons, phases, tag, lbs=None):
     """Walk the priority order; returns False if the call is inconclusive or violated."""
     N = len(vec)
     rates = [0.0] * N
+    lbs = lbs or {}
+    for x in order:
+        rates[x["i"]] = lbs.get(x["i"], (0.0, False))[0]
     nbind = 0
     for x in order:
         i = x["i"]
-        ub = min(x["max_pilot"], x["rem_ap"])
+        lb, refused = lbs.get(i, (0.0, False))
+        ub = 0.0 if refused else min(max(x["max_pilot"], lb), x["rem_ap"])
         got = vec[i]
         e = x["evse"]
         if e["type"] == "EVSE":
@@ -63,14 +98,14 @@ def greedy_expect(out, sc, t, order, vec, cons, phases, tag):
                     return False
             else:
                 out.probe("bisection_used")
-                xs = phasor.max_feasible_1d(cons, phases, rates, i, 0.0, ub, alloc.ALG_VT, alloc.ALG_RT)
+                xs = phasor.max_feasible_1d(cons, phases, rates, i, lb, ub, alloc.ALG_VT, alloc.ALG_RT)
                 if not (xs - 0.01 - 1e-6 <= got <= xs + 1e-6):
                     out.add("C08/greedy_not_max", "%s station %s (priority %d): granted %r, largest feasible rate %r (bisection tolerance 0.01)"
                             % (tag, x["station"], order.index(x), got, xs))
                     return False
                 nbind += 1
         else:
-            lv = [a for a in evse_levels(e) if a <= ub]
+            lv = [a for a in evse_levels(e) if lb <= a <= ub]
             if any(abs(a - ub) < 1e-9 for a in evse_levels(e)) and not any(a == ub for a in evse_levels(e)):
                 out.probe("guard_inconclusive")
                 return False
@@ -208,8 +243,16 @@ def check(sc):
         if bad:
             out.add("C08/pilot_for_inactive_station", "%s stations %s got %s" % (tag, bad, [vec[ids.index(b)] for b in bad]))
             continue
+        lbs = {}
+        if p.get("uninterrupted"):
+            lbs = min_alloc(out, keep, cons, phases, len(ids), t)
+            if lbs is None:
+                out.probe("guard_inconclusive")
+                out.inconclusive += 1
+                continue
+            out.probe("uninterrupted_call")
         if kind == "greedy":
-            if greedy_expect(out, sc, t, order, vec, cons, phases, tag):
+            if greedy_expect(out, sc, t, order, vec, cons, phases, tag, lbs):
                 out.probe("greedy_call_checked")
                 if len(order) >= 2 and [x["arrival"] for x in order] != sorted(x["arrival"] for x in order):
                     out.probe("order_matters")
@@ -219,14 +262,15 @@ def check(sc):
             incon = False
             for x in order:
                 e = x["evse"]
-                ub = min(x["max_pilot"], x["rem_ap"])
+                lb, refused = lbs.get(x["i"], (0.0, False))
+                ub = 0.0 if refused else min(max(x["max_pilot"], lb), x["rem_ap"])
                 if e["type"] == "EVSE":
-                    grid = np.arange(0.0, x["max_pilot"] + inc / 2, inc)
+                    grid = np.arange(lb, (0.0 if refused else max(x["max_pilot"], lb)) + inc / 2, inc)
                 else:
                     grid = np.array(evse_levels(e), dtype=float)
                 if any(abs(a - ub) < 1e-9 and a != ub for a in grid):
                     incon = True
-                levels[x["i"]] = [float(a) for a in grid if 0 <= a <= ub]
+                levels[x["i"]] = [float(a) for a in grid if lb <= a <= ub]
             if incon:
                 out.probe("guard_inconclusive")
                 out.inconclusive += 1
